@@ -109,6 +109,10 @@ pub trait Prop: Sync {
     fn shrink_budget(&self) -> u32 {
         400
     }
+    /// Upper bound on worker threads (1 for checks that observe process-wide state).
+    fn max_jobs(&self) -> usize {
+        usize::MAX
+    }
 }
 
 /// Results of `Prop::extra`.
@@ -419,6 +423,11 @@ pub struct RunOpts {
 
 /// Runs a property. Returns the process exit code.
 pub fn run_property<P: Prop>(p: &P, opts: &RunOpts) -> i32 {
+    let opts = &RunOpts {
+        tier: opts.tier,
+        seed: opts.seed,
+        jobs: opts.jobs.min(p.max_jobs()).max(1),
+    };
     let t0 = Instant::now();
     let known = Known::load();
     let id = p.id();
